@@ -2,7 +2,7 @@
 /* C07.set_scheme_from_view_with_colon: scheme := input-with-colon minus the colon */
 void harness(void) {
   EDITOR_PROLOGUE
-  sv_t input; input.n = nondet_size(); MAKE_SV(input);
+  ND_SV(input);
   __CPROVER_assume(input.n >= 2 && input.p[input.n - 1] == ':' && wf_no_byte(input.p, 0, input.n - 1, ':', '/', '?', '#', '@'));
   __CPROVER_assume(u.buffer.n + input.n <= STR_CAP);
 
